@@ -44,24 +44,4 @@ theorem hdrcli_step (s : St) (a : Act) (s' : St) (evs : List Ev) (h : HdrCli s)
            | (constructor <;> simp_all <;> (try assumption)))
   all_goals (first | assumption | grind)
 
-/-- server side -/
-structure HdrSrv (s : St) : Prop where
-  /- headers -/
-  hs0 : s.ctx = none → s.sState = 0 → s.sHeaders = s.hdrAll
-  hs0e : s.ctx = none → s.sState = 0 → s.sReturned = false → s.respEnq = []
-  hs0n : s.ctx = none → s.sState = 0 → noHdr s.respEnq ∧ (∀ m, Frame.data m ∉ s.respEnq)
-  hp : s.ctx = none → ∀ md, Frame.headers md ∈ pendFrames s → md = s.hdrAll ∧ s.sState = 0 ∧ s.respEnq = []
-  hpos : ∀ f fs, pendFrames s = f :: fs → noHdr fs
-  hfin : s.ctx = none → isFinish s → s.sState = 0 → s.sHeaders = [] ∨ Frame.headers s.sHeaders ∈ pendFrames s
-  hE : s.ctx = none → s.sState ≠ 0 → hdrOf s.respEnq = s.hdrAll
-  hord : s.ctx = none → ∀ f t, s.respEnq = f :: t → noHdr t
-  /- trailers -/
-  ts : s.sReturned = false → s.sTrailers = s.tlrAll ∧ noTlr s.respEnq ∧ noTlr (pendFrames s)
-  tp : ∀ md, (Frame.trailers md ∈ pendFrames s ∨ Frame.trailers md ∈ s.respEnq) → md = s.tlrAll
-  tpos : ∀ pre md post, pendFrames s = pre ++ Frame.trailers md :: post → noTlr post
-  tE : s.ctx = none → s.sReturned = true → noTlr (pendFrames s) → tlrOf s.respEnq = s.tlrAll
-  /- the error frame is the last frame -/
-  eLast : ∀ e, Frame.err e ∈ s.respEnq → pendFrames s = []
-  ePend : ∀ pre e post, pendFrames s = pre ++ Frame.err e :: post → post = []
-
 end InprocStream
